@@ -1,8 +1,8 @@
 #!/bin/bash
-# usage: tools/confirm_seed.sh <Cxx> [worktree]   -- confirms a sub-agent's seeded change in its scratch worktree,
+# usage: tools/confirm_seed.sh <Cxx> [worktree] [name under /verif/seeded, default <Cxx>]   -- confirms a sub-agent's seeded change in its scratch worktree,
 # stores it under /verif/seeded/<id>/, runs the check against it on /repo (apply, check, undo).
 set -u
-ID=$1; WT=${2:-/root/scratch/seed_$ID}; OUT=/verif/seeded/$ID; mkdir -p $OUT
+ID=$1; WT=${2:-/root/scratch/seed_$ID}; OUT=/verif/seeded/${3:-$ID}; mkdir -p $OUT
 cd $WT || exit 2
 git diff -- fortls > $OUT/patch.diff
 cp demo.py $OUT/demo.py 2>/dev/null
